@@ -23,6 +23,7 @@ Ops == {<<n, k>> : n \in K1, k \in Keys}
        \* the closure compares QualifierKey with a string: judged for ASCII strings only
        \* (key == <non-ASCII string> uses Unicode lower-casing and is left unjudged, DESIGN.md 4)
        \cup {<<"retain_key_ne", k>> : k \in {x \in Keys : IsAscii(x)}}
+       \cup {<<"count_keys_lt", k>> : k \in {x \in Keys : IsAscii(x)}}
        \cup {<<"entry_and_modify_or_insert", k, <<122>>, v>> : k \in Keys, v \in Vals}
        \cup {<<"retain_nonempty">>, <<"clear">>, <<"reserve", <<>>>>, <<"remove_typed_repo">>, <<"get_typed_repo">>,
              <<"try_get_typed_checksum">>, <<"retain_mut_set", <<120>>>>, <<"iter_mut_set", <<>>>>}
